@@ -22,7 +22,8 @@ M = [
  ("C03", "retransmit-dup-false", "server/client.go", "\t\t\tm.Dup = true\n", "\t\t\tm.Dup = false\n"),
  ("C03", "markused-skipped", "server/client.go", "\t\t\tclient.pl.markUsedLocked(id)\n\t\t\tclient.write(client.publishWithRemainingExpiry(m.Message, v.At, time.Now()))", "\t\t\tclient.write(client.publishWithRemainingExpiry(m.Message, v.At, time.Now()))"),
  ("C03", "limit-off-by-one", "server/limiter.go", "for p.used >= p.limit && !p.exit {\n\t\tp.cond.Wait()\n\t}\n\tif p.exit {\n\t\treturn nil\n\t}", "for p.used > p.limit && !p.exit {\n\t\tp.cond.Wait()\n\t}\n\tif p.exit {\n\t\treturn nil\n\t}"),
- ("C03", "puback-keeps-element", "server/client.go", "\terr := client.queueStore.Remove(puback.PacketID)\n\tif err != nil {\n\t\treturn converError(err)\n\t}\n\tclient.pl.release(puback.PacketID)", "\tvar err error\n\tif err != nil {\n\t\treturn converError(err)\n\t}\n\tclient.pl.release(puback.PacketID)"),
+ ("C03", "puback-keeps-element", "server/client.go", "\terr := client.queueStore.Remove(puback.PacketID)\n\tif err != nil {\n\t\treturn converError(err)\n\t}\n\tclient.pl.releaseAcked(puback.PacketID)", "\tvar err error\n\tif err != nil {\n\t\treturn converError(err)\n\t}\n\tclient.pl.releaseAcked(puback.PacketID)"),
+ ("C03", "ack-releases-reserved-id", "server/limiter.go", "\tif p.reserved.Get(id) == 0 {\n\t\tp.releaseLocked(id)\n\t}", "\tp.releaseLocked(id)"),
  ("C04", "ignore-exist", "server/client.go", "\t\tif exist {\n\t\t\tdup = true\n\t\t}", "\t\tif exist && false {\n\t\t\tdup = true\n\t\t}"),
  ("C04", "pubrel-keeps-id", "server/client.go", "\terr := client.unackStore.Remove(pubrel.PacketID)\n\tif err != nil {\n\t\treturn converError(err)\n\t}\n\tpubcomp := pubrel.NewPubcomp()", "\tvar err error\n\tif err != nil {\n\t\treturn converError(err)\n\t}\n\tpubcomp := pubrel.NewPubcomp()"),
  ("C04", "unack-reinit-on-resume", "server/server.go", "\t\t\t\terr = ua.Init(false)", "\t\t\t\terr = ua.Init(true)"),
